@@ -54,7 +54,7 @@ func (c13) Budget(tier string) runner.Budget {
 	if tier == "thorough" {
 		return runner.Budget{Plans: 40000, PlansPerProc: 40, Wall: 14 * time.Minute}
 	}
-	return runner.Budget{Plans: 3200, PlansPerProc: 100, Wall: 100 * time.Second}
+	return runner.Budget{Plans: 4000, PlansPerProc: 100, Wall: 45 * time.Second}
 }
 
 func (c13) Describe() runner.Description {
